@@ -220,7 +220,7 @@ open RF in
 theorem recheckMeta_eq_spec (H1 H : Bytes → Bytes) (B hs : Nat) (hhs : 0 < hs) (mf : BVal)
     (disk : Disk) (p : Spec.Plan) (argName : Bytes) (here : Option Node)
     (hplan : Spec.plan B mf disk = some p) (hscope : p.InScope B hs)
-    (hroot : Impl.findRoot (Impl.nameOf mf) argName here = .ok disk)
+    (hroot : Impl.findRoot (Impl.infoOf mf) (Impl.nameOf mf) argName here = .ok disk)
     (hnodir : Spec.NoDirAtFile mf disk) (hne : ¬ Spec.EmptySingleV2 mf (isFile disk)) :
     Impl.recheckMeta H1 H B hs mf argName here
       = .ok (p.verdicts H1 H B hs, Spec.ratio (p.verdicts H1 H B hs)) ∧
@@ -241,11 +241,13 @@ example :
 open RF in
 /-- The same for the whole `Impl.recheck` on the metafile BYTES with a `ContentArg`: when the
     bytes decode (`pyben.load`) to `mf` and the content argument resolves
-    (`ContentArg.Resolves`: a payload root is named like the torrent, a parent directory is
-    not), `Impl.recheck = Spec.recheck`. -/
+    to the payload (`ContentArg.Resolves`: a payload root is named like the torrent and
+    `find_root` does not go on into an entry of the same name; a parent directory is not named
+    like the torrent, or `_is_parent` tells the payload from it — `C05.root_or_parent`),
+    `Impl.recheck = Spec.recheck`. -/
 theorem recheck_eq_spec (H1 H : Bytes → Bytes) (B hs : Nat) (hhs : 0 < hs) (metafile : Bytes)
     (mf : BVal) (arg : ContentArg) (disk : Disk) (p : Spec.Plan)
-    (hmf : Impl.loads metafile = some mf) (harg : arg.Resolves (Impl.nameOf mf))
+    (hmf : Impl.loads metafile = some mf) (harg : arg.Resolves (Impl.infoOf mf) (Impl.nameOf mf) disk)
     (hplan : Spec.plan B mf disk = some p) (hscope : p.InScope B hs)
     (hnodir : Spec.NoDirAtFile mf disk) (hne : ¬ Spec.EmptySingleV2 mf (isFile disk)) :
     (Impl.recheck H1 H B hs metafile arg disk).toOption = Spec.recheck H1 H B hs mf disk ∧
@@ -253,7 +255,7 @@ theorem recheck_eq_spec (H1 H : Bytes → Bytes) (B hs : Nat) (hhs : 0 < hs) (me
       = .ok (p.verdicts H1 H B hs, Spec.ratio (p.verdicts H1 H B hs)) := by
   have h := recheckMeta_eq_spec H1 H B hs hhs mf disk p arg.argName
     (some (arg.place (Impl.nameOf mf) disk)) hplan hscope
-    (Spec.findRoot_place arg _ disk harg) hnodir hne
+    (Spec.findRoot_place arg _ _ disk harg) hnodir hne
   simp only [Impl.recheck, hmf]
   exact ⟨by rw [h.1, h.2]; rfl, h.1⟩
 
@@ -271,7 +273,7 @@ open RF in
 theorem consumed_is_total (H1 H : Bytes → Bytes) (B hs : Nat) (hhs : 0 < hs) (mf : BVal)
     (disk : Disk) (p : Spec.Plan) (recs : List FileRec) (argName : Bytes) (here : Option Node)
     (hplan : Spec.plan B mf disk = some p) (hscope : p.InScope B hs)
-    (hroot : Impl.findRoot (Impl.nameOf mf) argName here = .ok disk)
+    (hroot : Impl.findRoot (Impl.infoOf mf) (Impl.nameOf mf) argName here = .ok disk)
     (hnodir : Spec.NoDirAtFile mf disk) (hne : ¬ Spec.EmptySingleV2 mf (isFile disk))
     (hrecs : Spec.describedFiles mf (isFile disk) = some recs) :
     ∃ vs matched, Impl.recheckMeta H1 H B hs mf argName here = .ok (vs, matched, totalOf recs) ∧
